@@ -17,7 +17,9 @@ Inductive aop :=
 | OPop (i : option Z) (bad : bool) | ORemove (v : val) | OReverse | OClear | OIndex (v : val) | OCount (v : val)
 | OLen | OIter
 | OEq (other : list Z)           (* self == an array holding [other]: np.array_equal *)
-| OIndexR (v : val) (s : Z) (e : option Z).   (* index(v, start[, stop]): the Sequence mixin, bounds as in slice notation *)
+| OIndexR (v : val) (s : Z) (e : option Z)    (* index(v, start[, stop]): the Sequence mixin, bounds as in slice notation *)
+| OIterAppend (k t : Z).                      (* it = iter(a); k times next(it) (until exhausted); a.append(t); then the rest of it:
+                                                 a live iterator, like a list's, sees what is appended while it runs *)
 
 Inductive out := ONone | OVal (t : Z) | OList (l : list Z) | OInt (n : Z).
 
@@ -151,6 +153,7 @@ Definition step (l : list Z) (op : aop) : res out * list Z :=
   | OIter => (Ok (OList l), l)
   | OEq other => (Ok (OInt (if list_eqb Z.eqb l other then 1 else 0)), l)
   | OIndexR v s e => (match v with VBad => Raise ValueError | VElem t => do i <- l_index_range l t s e; Ok (OInt i) end, l)
+  | OIterAppend k t => (Ok (OList (if k <=? len l then l ++ [t] else l)), l ++ [t])
   end.
 
 (* --- the spec: a Python list subjected to the same operation; wrong-typed elements / indices are
@@ -200,4 +203,5 @@ Definition spec_step (l : list Z) (op : aop) : res out * list Z :=
   | OIter => (Ok (OList l), l)
   | OEq other => (Ok (OInt (if list_eqb Z.eqb l other then 1 else 0)), l)
   | OIndexR v s e => (match v with VBad => Raise ValueError | VElem t => do i <- l_index_range l t s e; Ok (OInt i) end, l)
+  | OIterAppend k t => (Ok (OList (if k <=? len l then l ++ [t] else l)), l ++ [t])
   end.
